@@ -95,6 +95,14 @@ Theorem C17_table_clash_free : clash_freeb stdlib = true.
 Proof. vm_compute. reflexivity. Qed.
 Theorem C17_table_keys : keys_nodupb stdlib = true.
 Proof. vm_compute. reflexivity. Qed.
+(* closedness: in every module, every identifier used by a definition is defined
+   earlier in that module or by a module that an earlier `use` of the module
+   imports transitively (closure computed by the resolver model itself); and the
+   graph is acyclic, so "imported" means "completely inlined before" *)
+Theorem C17_table_closed : closedb stdlib = true.
+Proof. vm_compute. reflexivity. Qed.
+Theorem C17_table_acyclic : acyclicb stdlib = true.
+Proof. vm_compute. reflexivity. Qed.
 
 (* every sequence of imports of standard-library modules succeeds, in any order,
    with any repetitions, from any resolver state *)
@@ -111,7 +119,7 @@ Theorem C17_stdlib_order_free :
     import_seq stdlib ms = (r1, ROk out1) -> import_seq stdlib ms' = (r2, ROk out2) ->
     Permutation (imported string mprog r1) (imported string mprog r2)
     /\ Permutation out1 out2
-    /\ forall x s, In (x, s) (env def string (fun d => d) out1) <-> In (x, s) (env def string (fun d => d) out2).
+    /\ forall x s, In (x, s) (env def string def_names out1) <-> In (x, s) (env def string def_names out2).
 Proof. exact (stdlib_order_free stdlib). Qed.
 
 Print Assumptions C17_once.
@@ -122,6 +130,8 @@ Print Assumptions C17_imports_succeed.
 Print Assumptions C17_env_order_free.
 Print Assumptions C17_table_wf.
 Print Assumptions C17_table_clash_free.
+Print Assumptions C17_table_closed.
+Print Assumptions C17_table_acyclic.
 Print Assumptions C17_stdlib_succeeds.
 Print Assumptions C17_stdlib_order_free.
 
